@@ -14,7 +14,7 @@ import dask.bag as db
 import numpy as np
 
 from ..sim import gen_sched, HarnessError
-from ..util import A, L, Result, sig6, rel_diff, random_composition
+from ..util import A, L, Result, sig6, rel_diff, random_composition, is_harness_bug
 from .common import SimRec, gen_data, gen_simplex, trim
 from .c04 import _cmp, dict_get
 
@@ -65,7 +65,7 @@ def _perm(rng, n):
     return p
 
 
-def gen_case(rng, tier, est=None, seeded=None):
+def gen_case(rng, tier, est=None, seeded=None, long_lived=False):
     est = est or rng.choices(ESTS, EST_W)[0]
     rs = np.random.RandomState(rng.getrandbits(32))
     case = {"kind": est}
@@ -150,6 +150,8 @@ def gen_case(rng, tier, est=None, seeded=None):
     # the history
     ops = []
     n_fits = rng.randint(3, 7)
+    if long_lived or rng.random() < 0.05:
+        n_fits = rng.randint(12, 70)  # a long-lived process: dozens of trainings
     fits_done = 0
     while fits_done < n_fits:
         r = rng.random()
@@ -221,7 +223,19 @@ def gen_case(rng, tier, est=None, seeded=None):
     # an "integer random_state" may be a Python int or any NumPy integer scalar
     # k-means and WCCN re-initialise at every fit: training the SAME estimator object again
     # must give the same result as a fresh one (GMM / ISV / JFA continue from their state)
-    case["reuse_obj"] = est in ("kmeans", "wccn") and rng.random() < 0.4
+    case["reuse_obj"] = est in ("kmeans", "wccn", "gmm") and (long_lived or rng.random() < 0.4)
+    if est == "gmm" and case["reuse_obj"]:
+        # (thresholded: fits are only compared when presented identically)
+        case["cfg"]["km_thr"] = rng.choice([None, 1e-5, 1e-3, 0.05])
+        if n_fits > 10:  # the long-lived tail: hundreds of EM steps on one object
+            # (a generous iteration limit and a threshold that ends training well before it, as
+            # with the library's defaults of 200 steps and 1e-5)
+            case["cfg"]["steps"] = rng.choice([60, 200])
+            case["cfg"]["km_thr"] = rng.choice([1e-5, 1e-4, 1e-3])
+            for o in ops:
+                if o["op"] == "fit":
+                    o.update(pres="identity", backend="np")
+                    o.pop("perm", None), o.pop("sigma", None), o.pop("sched", None)
     if est == "kmeans" and case["reuse_obj"]:
         # with a threshold, fits are only compared when presented identically (a permutation
         # may legitimately flip a near-threshold stop)
@@ -242,6 +256,12 @@ def fixed_cases(tier):
     for i in range(6 if tier == "quick" else 40):
         rng = random.Random(f"fixed16/{i}")
         out.append(gen_case(rng, tier, est=rng.choice(["kmeans", "gmm_kminit"]), seeded=True))
+    # long-lived estimator objects: one object trained dozens of times (hundreds of EM steps)
+    for est in ("gmm", "gmm", "kmeans", "wccn"):
+        for i in range(3 if tier == "quick" else 15):
+            rng = random.Random(f"fixed16-long/{est}/{i}/{len(out)}")
+            out.append(gen_case(rng, tier, est=est, seeded=False if est != "wccn" else None,
+                                long_lived=True))
     return out
 
 
@@ -317,7 +337,8 @@ def _fit(case, o, rec, label):
         return [("centroids", np.asarray(res.centroids_, float), "s"),
                 ("criterion", np.asarray(float(res.average_min_distance)), "s2")]
     if est in ("gmm", "gmm_kminit"):
-        kw = dict(max_fitting_steps=cfg["steps"], convergence_threshold=None, update_means=True,
+        kw = dict(max_fitting_steps=cfg["steps"], convergence_threshold=cfg.get("km_thr"),
+                  update_means=True,
                   update_variances=cfg["uv"], update_weights=cfg["uw"], random_state=cfg["rs"])
         if cfg.get("mvut") is not None:
             kw["mean_var_update_threshold"] = cfg["mvut"]
@@ -332,6 +353,10 @@ def _fit(case, o, rec, label):
             g.variance_thresholds = cfg["vfloor"]
         else:
             g = GMMMachine(cfg["k"], **kw)
+            if case.get("reuse_obj"):
+                # one long-lived machine: put back to its start through the setters before every
+                # training (it then must train like a new one)
+                g = _KEEP.setdefault("est", g)
             g.variance_thresholds = cfg["vfloor"]
             g.means = A(cfg["init"])
             g.variances = A(cfg["variances"])
@@ -366,7 +391,9 @@ def _fit(case, o, rec, label):
                     else:
                         m.fit(data["stats"], ybad)
                 refused = False
-            except Exception:
+            except Exception as _e:
+                if is_harness_bug(_e):
+                    raise HarnessError(f"harness bug: {_e!r}")
                 refused = True
             rec.probe("rejected_call_before_fit_" + ("raised" if refused else "accepted"))
             if not refused:
@@ -483,6 +510,8 @@ def run_case(case, replay=None):
         except HarnessError:
             raise
         except Exception as e:
+            if is_harness_bug(e):
+                raise HarnessError(f"harness bug: {e!r}")
             results.append((i0, case["ops"][i0]["pres"], case["ops"][i0]["backend"], e))
     events_between = 0
     interleaved = False
@@ -522,7 +551,9 @@ def run_case(case, replay=None):
                         _fit(sib, dict(o, pres="identity"), rec, f"op{i}")
                     except HarnessError:
                         raise
-                    except Exception:
+                    except Exception as _e:
+                        if is_harness_bug(_e):
+                            raise HarnessError(f"harness bug: {_e!r}")
                         pass  # the sibling's own success is irrelevant
                     rec.faults["F6_sibling_fit"] = rec.faults.get("F6_sibling_fit", 0) + 1
                     events_between += 1
@@ -540,6 +571,8 @@ def run_case(case, replay=None):
         except HarnessError:
             raise
         except Exception as e:
+            if is_harness_bug(e):
+                raise HarnessError(f"harness bug: {e!r}")
             if name != "fit":
                 raise HarnessError(f"environment op {name} raised {e!r}")
             results.append((i, o["pres"], o["backend"], e))
